@@ -76,6 +76,20 @@ def ob_lu_single():
         res.append(("lu(A, A*f)", proved("sym-exec+recording-stubs", "solve(weak(A), weak(A) f.c) -> GridFunction(domain)") if ok else
                     violated("lu(A, A*f) hands scipy a system other than (weak(A), weak(A) f.c) or wraps the solution in the wrong space", signature="lu/single",
                              replay={"callable": "checks.c15:replay_numeric", "kwargs": {"which": "lu"}, "confirmed": replay_numeric("lu")["violates"]})))
+        # "all right-hand sides": a right-hand side that was inspected before the solve (its coefficients were computed from the projections) is still the same function:
+        # the stored projections must be used, not a recomputation from the coefficients (lossy when range and dual_to_range differ)
+        b2 = A * f
+        try:
+            b2.coefficients
+            rec1 = Rec(sol)
+            with scipy_stubs({"solve": rec1}):
+                lu(A, b2)
+            ok = len(rec1.calls) == 1 and same(rec1.calls[0][0][1], W @ fc) is None
+            res.append(("lu(A, b) after b.coefficients was read", proved("sym-exec+recording-stubs", "same right-hand side weak(A) f.c") if ok else
+                        violated("after b.coefficients has been read, lu(A, b) hands scipy a right-hand side other than the projections of b = A*f", signature="lu/inspected-rhs",
+                                 replay={"callable": "checks.c15:replay_numeric", "kwargs": {"which": "lu"}, "confirmed": replay_numeric("lu")["violates"]})))
+        except Exception as ex:  # noqa
+            res.append(("lu(A, b) after b.coefficients was read", undecided("symbolic run not possible: %s: %s" % (type(ex).__name__, str(ex)[:100]))))
         # generic right-hand side given by projections in another dual space: projections(dual_to_range) must be used
         g = api.GridFunction(sp["D1"], dual_space=sp["P"], projections=symmat("g", (4,), cplx=False))
         rec2 = Rec(sol)
@@ -309,6 +323,17 @@ def replay_numeric(which):
         errs["lu real operator, complex rhs"] = Z.relerr(lu(V, V * fc).coefficients, fc.coefficients)
         errs["lu real operator, complex rhs, precomputed factors"] = Z.relerr(lu(V, V * fc, lu_factor=compute_lu_factors(V)).coefficients, fc.coefficients)
         errs["lu(second, second f)"] = Z.relerr(lu(second, second * f1).coefficients, f1.coefficients)
+        # right-hand sides that were inspected before the solve, for an operator whose range and dual_to_range have different dof counts
+        from bempp_cl.api.operators.boundary import laplace as _lap
+
+        V2 = _lap.single_layer(dp0, p1, dp0, parameters=Z.params(3, 3))
+        b = V2 * f0
+        b.coefficients, b.l2_norm()
+        errs["lu(V2, b) after b.coefficients / b.l2_norm() were read (range P1, dual DP0)"] = Z.relerr(lu(V2, b).coefficients, f0.coefficients)
+        b = V2 * f0
+        b.coefficients
+        x, info = gmres(V2, b, tol=1e-10)
+        errs["gmres(V2, b) after b.coefficients was read"] = 0.0 if (info == 0 and Z.relerr(x.coefficients, f0.coefficients) < 1e-7) else max(1.0, Z.relerr(x.coefficients, f0.coefficients))
     if which in ("lu-blocked", "all"):
         B = api.BlockedOperator(2, 2)
         B[0, 0], B[1, 1] = V, second
